@@ -280,7 +280,7 @@ var consensusAssumptions = []string{
 	"T1: the verifier itself (govc: Go semantics of the supported subset; struct values held in slices are references to copies; pointers to non-struct values are per-type boxes), go/types, the SMT solvers",
 	"T2: partial correctness only; termination is not proved",
 	"A-GOB: encoding/gob is not modelled beyond its interface: Encode receives the value it is given, Decode leaves an arbitrary value of the pointee's type. That Decode reproduces what Encode was given and that different values have different encodings is assumed, not proved; the round trip and the sensitivity of the hash to every field follow from the proved field-completeness clauses only together with this assumption. KNOWN TO HOLD ONLY WITHIN ONE PROCESS: gob writes process-wide type numbers (assigned in order of first use) into the stream, so the same payload hashes differently in a process that encoded another message kind first (replays_known/C19_gob_type_ids_test.go.txt, DESIGN.md section 14)",
-	"A-HASH: crypto.Hash256 is a function of the bytes (pure); SHA-256 collision resistance, ECDSA correctness and the Merkle construction (internal/crypto, internal/merkle, Go's crypto) are outside the contracts; merkle.NewMerkleTree/Root are assumed to return a root for a non-empty list",
+	"A-HASH: crypto.Hash256 is a function of the bytes (pure); SHA-256 collision resistance and ECDSA correctness (Go's crypto) are outside the contracts. internal/merkle is under contract level by level (leaves = the given hashes in order, each inner node = Hash256 of its two children's hashes, next level built from exactly these nodes); that the ROOT therefore changes with every leaf or order change is the induction over these facts with a collision-resistant hash: argued, not mechanised. The depth counter of NewMerkleTree is exempt from the overflow check (at most 64 levels, not proved). The extern clauses for merkle.NewMerkleTree/Root in the contracts of internal/consensus restate proved post-conditions",
 	"A-DISPATCH: interface values of dbft.ConsensusPayload and Serializable handled inside the package are its own *Payload and body types (the extern clauses for ConsensusPayload.SetValidatorIndex, Serializable.EncodeBinary/DecodeBinary restate the proved contracts of those methods)",
 	"A-FRESH: an object allocated by new/&T{} differs from every reference the state held before (Go allocation)",
 	"integers: mathematical Int with explicit range facts per Go type; overflow is an obligation except where the contract file says 'wraps' (listed)",
@@ -493,7 +493,7 @@ var propertyExplanation = map[string]string{
 	"C15": "Functional post-conditions of Fill and getTimestamp, argument obligation at NewPrepareRequest, writers table for the proposal fields, the timestamp base is fixed within a height.",
 	"C16": "PARTIAL: per-call mechanism clauses of the dynamic block time extension; network-time spacing is not decided.",
 	"C17": "PARTIAL: typestate assertion on the example's event loop (never waits with a decided instance) against assumed API contracts.",
-	"C19": "Reference payload/block code: every field goes to the encoder and comes back from the decoder, the payload hash cache is never filled, the hashed block data is exactly the header, rebuilt recovery payloads carry the stored fields, decoders do not panic. gob, SHA-256, ECDSA and the Merkle tree are assumed (A-GOB, A-HASH).",
+	"C19": "Reference payload/block code: every field goes to the encoder and comes back from the decoder, the payload hash cache is never filled, the hashed block data is exactly the header, rebuilt recovery payloads carry the stored fields, decoders do not panic; the Merkle tree is built level by level from exactly the given hashes; signatures are made and checked over the SHA-256 digest of the whole message; encoded bytes handed out are the call's own; the reference callbacks keep what package dbft assumes of its callbacks. gob, SHA-256 and ECDSA themselves are assumed (A-GOB, A-HASH).",
 	"C18": "Data invariant of timer.Timer over a ghost model of clock, channel and time.Timer deadlines; scheduling tolerance not decided.",
 }
 
